@@ -151,7 +151,8 @@ Fixpoint record_size (acc : Z) (l : list (Z * Z)) : option Z :=
 (* ------------------------------------------------------------------ SD level *)
 Record sdst := mkD { d_sys : Z; d_size : Z; d_maxopen : Z; d_slots : list (option Z);
                      d_files : list (Z * list (Z * Z)) }.
-Definition d0 := mkD H4_MAX_AVAIL_OPENFILES 0 H4_MAX_NC_OPEN [] [].
+(** [d_sys] above H4_MAX_AVAIL_OPENFILES: the harness has not set the descriptor limit, the system value is not known to S *)
+Definition d0 := mkD (H4_MAX_AVAIL_OPENFILES + 1) 0 H4_MAX_NC_OPEN [] [].
 Definition d_open_count (d : sdst) : Z := zcount (fun o => match o with Some _ => true | None => false end) (d_slots d).
 Fixpoint first_none (l : list (option Z)) (i : Z) : Z :=
   match l with [] => i | None :: _ => i | Some _ :: t => first_none t (i + 1) end.
@@ -233,7 +234,9 @@ Definition step_h (h : hst) (v : vst) (o : op) : hst * res :=
   match o with
   | OHopen ndds => let h' := h_create ndds in (h', ok1 (h_eof h'))
   | OReserve tag ref len => new_element h tag ref len false
-  | OPut tag ref n => new_element h tag ref n true
+  | OPut tag ref n =>
+      if n <=? 0 then (fst (new_element h tag ref n false), RUnspec)   (* an empty Hputelement is not a limits request *)
+      else new_element h tag ref n true
   | OGet tag ref =>
       match find_elem h tag ref with
       | Some e => if e_written e then (h, ok1 (e_len e)) else if e_len e <? 0 then (h, RFail []) else (h, RUnspec)
@@ -248,15 +251,17 @@ Definition step_h (h : hst) (v : vst) (o : op) : hst * res :=
   | OAppendAt tag ref pos n =>
       match find_elem h tag ref with
       | Some e =>
-          if negb (h_known h) || (e_len e <? 0) || negb (e_off e + e_len e =? h_eof h) then (h, RUnspec)
-          else if (pos <? 0) || (n <=? 0) then (h, RUnspec)
+          (* only an element that ends the file grows in place; anything else is re-organised into linked blocks,
+             which S does not follow *)
+          if negb (h_known h) || (e_len e <? 0) || negb (e_off e + e_len e =? h_eof h) || (pos <? 0) || (n <=? 0)
+          then (mkH false 0 (h_ndds h) (h_free h) (-1) (set_elem h (mkE tag ref (-2) 0 false)) (h_bulk h), RUnspec)
           else if (pos + n <=? INT32_MAX) && (e_off e + pos + n <=? INT32_MAX) then
             let len' := Z.max (e_len e) (pos + n) in
             let h' := mkH true (e_off e + len') (h_ndds h) (h_free h) (h_maxref h)
                           (set_elem h (mkE tag ref (e_off e) len' false)) (h_bulk h) in
             (h', ROk [Some n; Some (pos + n); Some len'; Some (h_eof h')])
           else (h, RFail [Some pos; Some (e_len e); Some (h_eof h)])
-      | None => (h, RUnspec)
+      | None => (mkH false 0 (h_ndds h) (h_free h) (-1) (set_elem h (mkE tag ref (-2) 0 false)) (h_bulk h), RUnspec)
       end
   | OHlWrite tag ref blen nblk pos n =>
       match find_elem h tag ref with
@@ -488,7 +493,8 @@ Definition step_d (d : sdst) (o : op) : sdst * res :=
         (** open files keep their identifiers: the table never shrinks below the highest one in use *)
         if a <? highest_used (d_slots d) then (d, ok1 (d_size d))
         else (mkD (d_sys d) a a (d_slots d) (d_files d), ok1 a)
-  | OSdGetMax => (d, ROk [Some (if d_size d =? 0 then d_maxopen d else d_size d); Some (d_sys d)])
+  | OSdGetMax => (d, ROk [Some (if d_size d =? 0 then d_maxopen d else d_size d);
+                          if H4_MAX_AVAIL_OPENFILES <? d_sys d then None else Some (d_sys d)])
   | OSdNOpen => (d, ok1 (d_open_count d))
   | _ => (d, RUnspec)
   end.
